@@ -189,7 +189,8 @@ def gen_mixtures(m, rng, job):
 # ---- the same history spelled two ways ------------------------------------------------------------
 CLASSES = [
     # each: alternative spellings (python forms) of one denotation, and the denotation
-    ([{'k': 'fmt', 'v': 'BOLD'}, {'k': 'str', 'v': 'bold'}, {'k': 'int', 'v': 1}, {'k': 'str', 'v': 'Bold'}, {'k': 'str', 'v': '1'}], ['1']),
+    ([{'k': 'fmt', 'v': 'BOLD'}, {'k': 'str', 'v': 'bold'}, {'k': 'int', 'v': 1}, {'k': 'str', 'v': 'Bold'}, {'k': 'str', 'v': '1'},
+      {'k': 'str_astr', 'v': 'bold'}, {'k': 'aset_astr', 'v': '1'}], ['1']),
     ([{'k': 'fmt', 'v': 'FG_RED'}, {'k': 'str', 'v': 'red'}, {'k': 'int', 'v': 31}, {'k': 'str', 'v': 'FG RED'}, {'k': 'str', 'v': 'fg-red'}], ['31']),
     ([{'k': 'fmt', 'v': 'FG_BLUE'}, {'k': 'str', 'v': 'blue'}, {'k': 'int', 'v': 34}, {'k': 'list', 'v': [{'k': 'str', 'v': 'BLUE'}]}], ['34']),
     ([{'k': 'call', 'fn': 'rgb', 'v': [10, 20, 30]}, {'k': 'str', 'v': 'rgb(10,20,30)'}, {'k': 'str', 'v': 'rgb(0x0A, 0x14, 0x1E)'},
